@@ -78,6 +78,7 @@ type partial struct {
 	Samples    []any            `json:"samples"`
 	Violations []Violation      `json:"violations"`
 	Inconcl    []string         `json:"inconclusive"`
+	Frozen     []int            `json:"frozen"`
 }
 
 type childState struct {
@@ -89,6 +90,7 @@ type childState struct {
 	violations []Violation
 	inconcl    []string
 	casesDone  int
+	frozen     []int
 }
 
 // Case is the handle a check uses to report what it observed for one case.
@@ -227,6 +229,7 @@ func runChild(t *testing.T, spec *Spec) {
 	tr := tier()
 	total := spec.Cases[tr]
 	only := envInt("VERIF_ONLY_CASE", -1)
+	resumeAfter := envInt("VERIF_RESUME_AFTER", -1)
 	verbose := os.Getenv("VERIF_VERBOSE") == "1"
 	outPath := os.Getenv("VERIF_PARTIAL")
 
@@ -234,7 +237,7 @@ func runChild(t *testing.T, spec *Spec) {
 	write := func() {
 		st.mu.Lock()
 		p := partial{Shard: shard, Evals: st.evals, CasesDone: st.casesDone, Counters: st.counters,
-			Samples: st.samples, Violations: st.violations, Inconcl: st.inconcl}
+			Samples: st.samples, Violations: st.violations, Inconcl: st.inconcl, Frozen: st.frozen}
 		for s := range st.sigs {
 			p.Sigs = append(p.Sigs, s)
 		}
@@ -273,7 +276,19 @@ func runChild(t *testing.T, spec *Spec) {
 			case <-tk.C:
 			}
 			cs := caseStart.Load()
-			if cs == 0 || time.Since(time.Unix(0, cs)) < spec.CaseTimeout {
+			if cs == 0 {
+				continue
+			}
+			age := time.Since(time.Unix(0, cs))
+			// A virtual-time bubble freezes when one goroutine waits for a mutex whose
+			// holder waits for the fake clock: that is a limit of the technique, not a
+			// verdict. It is recognised early (the process is idle) and the case is
+			// skipped and reported; outside bubbles an idle process is a real deadlock.
+			frozenLimit := spec.CaseTimeout
+			if spec.Bubble {
+				frozenLimit = 12 * time.Second
+			}
+			if age < frozenLimit {
 				continue
 			}
 			idx := curCase.Load()
@@ -284,20 +299,28 @@ func runChild(t *testing.T, spec *Spec) {
 				continue
 			}
 			idle := cpuTime()-c0 < 100*time.Millisecond
+			if !idle && age < spec.CaseTimeout {
+				continue
+			}
 			buf := make([]byte, 4<<20)
 			n := runtime.Stack(buf, true)
-			fmt.Fprintf(os.Stderr, "WATCHDOG case=%d idle=%v\n%s\n", idx, idle, buf[:n])
+			fmt.Fprintf(os.Stderr, "WATCHDOG case=%d idle=%v bubble=%v\n%s\n", idx, idle, spec.Bubble, buf[:n])
 			st.mu.Lock()
-			if idle {
+			code := 3
+			switch {
+			case idle && spec.Bubble:
+				st.frozen = append(st.frozen, int(idx))
+				code = 4
+			case idle:
 				st.violations = append(st.violations, Violation{Class: "deadlock", Case: int(idx),
 					Msg:    fmt.Sprintf("case made no progress for %s and the process used no CPU: goroutines are deadlocked", spec.CaseTimeout),
 					Detail: firstLines(blockedCentrifugeFrames(string(buf[:n])), 40)})
-			} else {
+			default:
 				st.inconcl = append(st.inconcl, fmt.Sprintf("case %d: watchdog fired after %s while the process was still busy", idx, spec.CaseTimeout))
 			}
 			st.mu.Unlock()
 			write()
-			os.Exit(3)
+			os.Exit(code)
 		}
 	}()
 
@@ -306,7 +329,7 @@ func runChild(t *testing.T, spec *Spec) {
 			if int64(i) != only {
 				continue
 			}
-		} else if i%nshards != shard {
+		} else if i%nshards != shard || int64(i) <= resumeAfter {
 			continue
 		}
 		c := &Case{Index: i, R: NewRand(seed, uint64(i)), T: t, Tier: tr, Seed: seed, Verbose: verbose, Bubble: spec.Bubble, st: st}
@@ -511,41 +534,54 @@ func runParent(t *testing.T, spec *Spec) {
 		log   string
 		part  *partial
 	}
-	results := make([]childRes, procs)
+	var resMu sync.Mutex
+	var results []childRes
 	var wg sync.WaitGroup
 	for i := 0; i < procs; i++ {
 		wg.Add(1)
 		go func(i int) {
 			defer wg.Done()
-			logPath := filepath.Join(work, fmt.Sprintf("child-%d.log", i))
-			partPath := filepath.Join(work, fmt.Sprintf("child-%d.json", i))
-			lf, _ := os.Create(logPath)
-			defer lf.Close()
-			cmd := exec.Command(os.Args[0], "-test.run", "^"+t.Name()+"$", "-test.timeout=0", "-test.count=1")
-			cmd.Env = append(os.Environ(),
-				"VERIF_CHILD=1",
-				fmt.Sprintf("VERIF_SHARD=%d", i),
-				fmt.Sprintf("VERIF_NSHARDS=%d", procs),
-				fmt.Sprintf("VERIF_SEED=%d", seed),
-				"VERIF_TIER="+tr,
-				"VERIF_PARTIAL="+partPath,
-				"VERIF_DIR="+dir,
-				"GORACE=halt_on_error=0 exitcode=66",
-			)
-			if only >= 0 {
-				cmd.Env = append(cmd.Env, fmt.Sprintf("VERIF_ONLY_CASE=%d", only), "VERIF_VERBOSE=1")
-			}
-			cmd.Stdout = lf
-			cmd.Stderr = lf
-			err := cmd.Run()
-			r := childRes{shard: i, err: err, log: logPath}
-			if b, rerr := os.ReadFile(partPath); rerr == nil {
-				var p partial
-				if json.Unmarshal(b, &p) == nil {
-					r.part = &p
+			resumeAfter := int64(-1)
+			for attempt := 0; attempt < 50; attempt++ {
+				logPath := filepath.Join(work, fmt.Sprintf("child-%d.%d.log", i, attempt))
+				partPath := filepath.Join(work, fmt.Sprintf("child-%d.%d.json", i, attempt))
+				lf, _ := os.Create(logPath)
+				cmd := exec.Command(os.Args[0], "-test.run", "^"+t.Name()+"$", "-test.timeout=0", "-test.count=1")
+				cmd.Env = append(os.Environ(),
+					"VERIF_CHILD=1",
+					fmt.Sprintf("VERIF_SHARD=%d", i),
+					fmt.Sprintf("VERIF_NSHARDS=%d", procs),
+					fmt.Sprintf("VERIF_SEED=%d", seed),
+					fmt.Sprintf("VERIF_RESUME_AFTER=%d", resumeAfter),
+					"VERIF_TIER="+tr,
+					"VERIF_PARTIAL="+partPath,
+					"VERIF_DIR="+dir,
+					"GORACE=halt_on_error=0 exitcode=66",
+				)
+				if only >= 0 {
+					cmd.Env = append(cmd.Env, fmt.Sprintf("VERIF_ONLY_CASE=%d", only), "VERIF_VERBOSE=1")
 				}
+				cmd.Stdout = lf
+				cmd.Stderr = lf
+				err := cmd.Run()
+				_ = lf.Close()
+				r := childRes{shard: i, err: err, log: logPath}
+				if b, rerr := os.ReadFile(partPath); rerr == nil {
+					var p partial
+					if json.Unmarshal(b, &p) == nil {
+						r.part = &p
+					}
+				}
+				resMu.Lock()
+				results = append(results, r)
+				resMu.Unlock()
+				// exit code 4 = a bubble froze: skip that case and carry on with the rest of the shard
+				if ee, ok := err.(*exec.ExitError); ok && ee.ExitCode() == 4 && r.part != nil && len(r.part.Frozen) > 0 && only < 0 {
+					resumeAfter = int64(r.part.Frozen[len(r.part.Frozen)-1])
+					continue
+				}
+				return
 			}
-			results[i] = r
 		}(i)
 	}
 	wg.Wait()
@@ -557,6 +593,7 @@ func runParent(t *testing.T, spec *Spec) {
 	var viols []Violation
 	var inconcl []string
 	var evals int64
+	var frozen []int
 	casesDone := 0
 	for _, r := range results {
 		if r.part != nil {
@@ -577,6 +614,7 @@ func runParent(t *testing.T, spec *Spec) {
 			}
 			viols = append(viols, r.part.Violations...)
 			inconcl = append(inconcl, r.part.Inconcl...)
+			frozen = append(frozen, r.part.Frozen...)
 		}
 		// Data races and crashes are read from the child's log.
 		logTxt := readTail(r.log, 8<<20)
@@ -591,6 +629,8 @@ func runParent(t *testing.T, spec *Spec) {
 				code = ee.ExitCode()
 			}
 			switch {
+			case code == 4 && r.part != nil:
+				// frozen bubble, handled below
 			case code == 3:
 				// watchdog: already recorded in partial (deadlock or inconclusive)
 				if r.part == nil {
@@ -609,7 +649,17 @@ func runParent(t *testing.T, spec *Spec) {
 		}
 	}
 
-	if only < 0 && casesDone < total && len(viols) == 0 && len(inconcl) == 0 {
+	// Frozen bubbles (see the watchdog): skipped cases, tolerated up to 1% (at least 3).
+	maxFrozen := total / 100
+	if maxFrozen < 3 {
+		maxFrozen = 3
+	}
+	if len(frozen) > maxFrozen {
+		sort.Ints(frozen)
+		inconcl = append(inconcl, fmt.Sprintf("%d cases froze their virtual-time bubble (limit %d), e.g. cases %v", len(frozen), maxFrozen, frozen[:3]))
+	}
+	counters["bubble_frozen_cases_skipped"] = int64(len(frozen))
+	if only < 0 && casesDone+len(frozen) < total && len(viols) == 0 && len(inconcl) == 0 {
 		inconcl = append(inconcl, fmt.Sprintf("only %d of %d cases completed", casesDone, total))
 	}
 	if only < 0 && len(viols) == 0 {
